@@ -242,6 +242,8 @@ def checkPop (j : Json) : Except String Verdict := do
     let got : Option (List String) := if cached then some ((jstrArr o "members").toOption.getD []) else none
     v := v.cmp i "pop.cache" st got ["C17"]
     if a == "notfound" && cached then v := v.mon "C17" "deleted_group_dropped" i s!"still cached: {got}"
+    -- the cache holds what the directory last answered successfully — an empty member list is an answer like any other
+    else if got != st then v := v.mon "C17" "cache_is_latest_successful_answer" i s!"directory's latest successful answer {st}, cache says {got}"
     v := v.br s!"pop/{if a == "notfound" then "notfound" else if a == "err" then "err" else "ok"}"
     i := i + 1
   v := { v with nontrivial := true }
